@@ -99,6 +99,10 @@ func (c *TableWriter) WriteRun(entries iter.Seq[kv.Entry], targetSize uint64) ([
 		for buffer.size < int(targetSize) {
 			entry, ok := next()
 			if !ok {
+				// The input ended on a chunk boundary: there is nothing left to write.
+				if len(buffer.entries) == 0 && len(tables) > 0 {
+					return tables, nil
+				}
 				t, err := c.Write(buffer.all())
 				if err != nil {
 					return nil, err
